@@ -32,7 +32,7 @@ let parse_op s =
   | ["N"; i] -> ONext (nat_of_int (int_of_string i))
   | ["X"; i] -> ODelIter (nat_of_int (int_of_string i))
   | ["+"] -> ONewGen
-  | ["-"; r] -> ONormalize (nat_of_int (int_of_string r))
+  | ["-"; r] | ["~"; r] -> ONormalize (nat_of_int (int_of_string r))
   | ["F"] -> OFreeze
   | ["W"] | ["W"; _] -> OThaw
   | _ -> failwith ("bad op: " ^ s)
@@ -85,19 +85,62 @@ let run_prefix ops =
              if pm_wf !m then r else r ^ "!WF"
     | _ -> failwith ("bad prefix op: " ^ s)) ops
 
+(* ---- nibble-path primitives (coq/Trie/Nibbles.v) ---- *)
+let parse_stem t =
+  match String.split_on_char '/' t with
+  | [h; p] -> { st_data = unhex h; st_partial = (p = "1") }
+  | _ -> failwith ("bad stem " ^ t)
+let show_stem s = "x" ^ hex s.st_data ^ "/" ^ (if s.st_partial then "1" else "0")
+let nibc = function Some v -> Printf.sprintf "%x" (int_of_n v) | None -> "-"
+let rec advance it k = if k = 0 then it else advance (snd (it_next it)) (k - 1)
+
+let run_stem_case c =
+  let kind = c.[0] in
+  let a = Array.of_list (String.split_on_char ',' (String.sub c 1 (String.length c - 1))) in
+  let with_len s = show_stem s ^ "#" ^ string_of_int (int_of_nat (st_len s)) in
+  match kind with
+  | 'p' -> with_len (ms_push (parse_stem a.(0)) (n_of_int (int_of_string a.(1))))
+  | 't' -> with_len (ms_truncate (parse_stem a.(0)) (nat_of_int (int_of_string a.(1))))
+  | 'e' -> with_len (ms_extend (parse_stem a.(0)) (parse_stem a.(1)))
+  | 'r' -> with_len (prepend_parts (parse_stem a.(0)) (parse_stem a.(1)) (n_of_int (int_of_string a.(2))))
+  | 'i' ->
+      let it = ref { it_data = unhex a.(0); it_pos = O; it_len = nat_of_int (int_of_string a.(1)) } in
+      let steps = int_of_string a.(2) in
+      let buf = Buffer.create 16 in
+      for _ = 1 to steps do
+        let (c, it') = it_next !it in Buffer.add_string buf (nibc c); it := it'
+      done;
+      Printf.sprintf "%s@%d|%s|%s|%s" (Buffer.contents buf) (int_of_nat !it.it_pos)
+        (show_stem (to_stem !it)) (show_stem (consumed_to_stem !it))
+        (show_stem (last_to_stem !it (nat_of_int (int_of_string a.(3)))))
+  | 'f' ->
+      let k0 = advance (iter_new (unhex a.(0))) (int_of_string a.(1)) in
+      let checkpoint = k0.it_pos in
+      let ((r, k), s) = follow_iter k0 (stem_iter (parse_stem a.(2))) in
+      let (tag, ks, ss) = match r with
+        | IEqual -> (0, None, None)
+        | IKeyIsPrefix x -> (1, None, Some x)
+        | IStemIsPrefix x -> (2, Some x, None)
+        | IDiff (x, y) -> (3, Some x, Some y) in
+      Printf.sprintf "%d%s%s@%d,%d|%s|%s|%s|%s" tag (nibc ks) (nibc ss) (int_of_nat k.it_pos) (int_of_nat s.it_pos)
+        (show_stem (to_stem k)) (show_stem (to_stem s)) (show_stem (consumed_to_stem s))
+        (show_stem (last_to_stem k checkpoint))
+  | _ -> failwith ("bad stem case " ^ c)
+
 let () =
   let use_spec = Array.length Sys.argv > 1 && Sys.argv.(1) = "spec" in
   (try
     while true do
       let line = input_line stdin in
       let n = String.length line in
-      if n >= 2 && (line.[0] = 'H' || line.[0] = 'P') && line.[1] = ' ' then begin
+      if n >= 2 && (line.[0] = 'H' || line.[0] = 'P' || line.[0] = 'N') && line.[1] = ' ' then begin
         let rest = String.sub line 2 (n - 2) in
         let i = try String.index rest ' ' with Not_found -> String.length rest in
         let id = String.sub rest 0 i in
         let body = if i < String.length rest then String.sub rest (i + 1) (String.length rest - i - 1) else "" in
         let outs =
           if line.[0] = 'H' then run_history use_spec (List.map parse_op (split_ops body))
+          else if line.[0] = 'N' then List.map run_stem_case (split_ops body)
           else run_prefix (split_ops body) in
         print_string ("M " ^ id ^ " " ^ String.concat ";" outs ^ "\n")
       end
